@@ -42,6 +42,16 @@ theorem c03_walk_terminates (env : Env) (m : Mem) (ctx : Ctx) (n : Nat) (hn : m.
       walkLoop env m (m.size + 2) (Frame.ofCtx ctx .context) none :=
   walk_fuel_enough env m ctx n hn
 
+/-- **"within a … budget tied to the input size" — the part a theorem carries.** A thread's stack
+    memory is a slice of the dump (its bytes are borrowed from the file), so no thread has more
+    frames than the dump has bytes, plus two; the work of unwinding is linear in the input.
+    (Wall-clock time and allocator behaviour themselves are sampled, not proved.) -/
+theorem c03_frames_le_input (env : Env) (m : Mem) (ctx : Ctx) (dumpLen : Nat) (h : m.size ≤ dumpLen) :
+    (walk env (some m) ctx).length ≤ dumpLen + 2 := by
+  have := walk_bound env (some m) ctx
+  simp only [Option.map_some, Option.getD_some] at this
+  omega
+
 /-- the bound the engine evaluates on the implementation's frame counts is this one -/
 theorem boundOk_iff (frames bytes : Nat) : boundOk frames bytes = true ↔ frames ≤ bytes + 2 := by
   simp [boundOk]
@@ -55,7 +65,9 @@ theorem limits_no_panic (text : List Char) : NoPanic (parseLimits text) := by
   apply mapO_ok
   intro m hm
   have h := of_decide_eq_true (List.mem_filter.mp hm).2
-  exact limitLine_ok m h
+  -- the constant read off the source must be at least 3 (it is 3)
+  have h3 : 3 ≤ LIMIT_MIN_FIELDS := by decide
+  exact limitLine_ok m (Nat.le_trans h3 h)
 
 /-- the filter is what carries it: a field vector shorter than three panics in the closure (this
     was finding F9; the model of the closure is faithful to the indexing) -/
@@ -95,13 +107,16 @@ theorem implicit_access_total (rsp : Nat) (h : rsp ≤ U64MAX) :
   have hu : U64MAX = 18446744073709551615 := rfl
   refine ⟨?_, ?_, ?_, rfl, rfl⟩
   · intro op
-    cases op <;> simp only [implicitAccess, wrappingSub64, TWO64] <;> (try split) <;> omega
+    cases op <;> simp only [implicitAccess, wrappingSub64, Consts.push_adjust, TWO64]
+    all_goals first
+      | omega
+      | (by_cases h8 : 8 ≤ rsp <;> simp only [h8, if_true, if_false] <;> omega)
   · intro h8
-    simp [implicitAccess, wrappingSub64, h8]
+    simp [implicitAccess, wrappingSub64, Consts.push_adjust, h8]
   · intro h8
     have : ¬ 8 ≤ rsp := by omega
     have e : (2 : Nat) ^ 64 = 18446744073709551616 := by decide
-    simp [implicitAccess, wrappingSub64, TWO64, this, e]
+    simp [implicitAccess, wrappingSub64, Consts.push_adjust, TWO64, this, e]
 
 example : implicitAccess .push 0 = 2 ^ 64 - 8 := by decide
 example : implicitAccess .call 7 = 2 ^ 64 - 1 := by decide
@@ -141,6 +156,7 @@ theorem fpo_no_panic (i : WinInfo) (x : FpoIn)
     (hesp : ∀ e, x.esp = some e → e ≤ U32MAX) (hg : x.gcps ≤ U32MAX) (hs : i.savedSize ≤ U32MAX) :
     NoPanic (fpo i x) := by
   have hu := u64_u32
+  have hw := fpo_word_eq
   unfold fpo
   cases hf : winFrameSize i x.gcps with
   | none => exact ⟨none, rfl⟩
@@ -227,6 +243,7 @@ theorem arg_read_head_no_panic (start limit : Nat) :
   | succ n ih =>
     intro hb
     obtain ⟨h, hh, hle⟩ := ih (by omega)
+    have hw : Consts.arg_pointer_width = 4 := rfl
     simp only [argReadHead, hh]
     split
     · rw [cadd64_ok _ _ _ (by omega)]
